@@ -1124,3 +1124,56 @@ func installThenNotifyField(p *Program, r *Report, ai *actorInfo, upd *ssa.Funct
 	}
 	return true
 }
+
+// R17i: the engine's mailboxes are rendezvous channels.  Observe, cancel, Update, Hangup and Stop each hand one
+// message to the actor over their own channel and return when the actor has *taken* it; the order of two calls made
+// one after the other (Observe then cancel, Observe then Update) is kept only because neither returns earlier.  A
+// buffered mailbox lets the call return while the message is still queued, and select then picks among the ready
+// mailboxes at random: a cancel can overtake the registration it cancels (the observer is never removed), an update
+// can overtake a registration (the observer misses the state it subscribed at).
+func ruleMailboxesUnbuffered(p *Program, r *Report) {
+	r.Begin("R17i", "rendezvous mailboxes: every channel stored into a channel-typed field of engine.Engine is made with capacity 0, so that a client call returns only once the actor has taken its message and calls made in sequence are served in sequence", 3)
+	defer r.End()
+	n := 0
+	for _, fn := range p.RepoFns {
+		if PkgPathOf(fn) != Mod+"/engine" {
+			continue
+		}
+		ForEachInstr(fn, func(ins ssa.Instruction) {
+			st, ok := ins.(*ssa.Store)
+			if !ok {
+				return
+			}
+			fa, ok := st.Addr.(*ssa.FieldAddr)
+			if !ok || TypeName(Deref(fa.X.Type())) != "engine.Engine" {
+				return
+			}
+			if _, isChan := Deref(fa.Type()).Underlying().(*types.Chan); !isChan {
+				return
+			}
+			sto := structOf(fa.X.Type())
+			fname := sto.Field(fa.Field).Name()
+			n++
+			r.Fn(FnName(fn))
+			key := "mailbox@" + fname
+			var mk *ssa.MakeChan
+			DependsOn(st.Val, func(x ssa.Value) bool {
+				if m, ok := x.(*ssa.MakeChan); ok && mk == nil {
+					mk = m
+				}
+				return false
+			})
+			if mk == nil {
+				r.Undecided(key, "the channel stored into Engine."+fname+" is not made here", st.Pos())
+				return
+			}
+			k, isK := mk.Size.(*ssa.Const)
+			r.Check(isK && k.Value != nil && k.Int64() == 0, key, "unbuffered", fmt.Sprintf("Engine.%s is a buffered channel: the client call returns while its message is still queued, so a later call on another mailbox (cancel after Observe, Update after Observe) can be served first — the cancelled observer is then registered after its removal and stays forever", fname), mk.Pos())
+		})
+	}
+	if n == 0 {
+		r.Undecided("sites", "no channel field of engine.Engine is initialised in package engine", 0)
+	}
+}
+
+func init() { register("C17", Rule{"R17i", ruleMailboxesUnbuffered}) }
